@@ -103,6 +103,7 @@ fn generate_churn(seed: u64, g: &GenCtx, rng: &mut Rng) -> Scenario {
         sources,
         clients: vec![long_lived, churner],
         schedule: None,
+        thread_style: (seed % 4) as u8,
     }
 }
 
@@ -286,6 +287,12 @@ pub fn generate(seed: u64, g: &GenCtx) -> Scenario {
         sources,
         clients,
         schedule: None,
+        thread_style: match rng.below(8) {
+            0 => 1,
+            1 => 2,
+            2 => 3,
+            _ => 0,
+        },
     }
 }
 
@@ -313,6 +320,7 @@ pub fn scenario_to_json(sc: &Scenario) -> Json {
         }),
     );
     j.set("heap_junk", sc.junk.map_or(Json::Null, |b| Json::u(u64::from(b))));
+    j.set("thread_style", Json::u(u64::from(sc.thread_style)));
     j.set(
         "sources",
         Json::Arr(
@@ -527,5 +535,6 @@ pub fn scenario_from_json(j: &Json) -> Result<Scenario, String> {
         ),
         _ => None,
     };
-    Ok(Scenario { seed, strategy, junk, sources, clients, schedule })
+    let thread_style = j.get("thread_style").and_then(Json::as_u64).unwrap_or(0) as u8;
+    Ok(Scenario { seed, strategy, junk, sources, clients, schedule, thread_style })
 }
